@@ -239,6 +239,21 @@ func (p *ProdGen) Replacement(cls string) sdk.Msg {
 			mr = [][]byte{nil, make([]byte, 32), Structured32(1)[:31], append(Structured32(1), 0), append(Structured32(1), Structured32(2)...), append(append(Structured32(1), Structured32(2)...), Structured32(3)...)}[r.Intn(6)]
 		}
 		return &ct.MsgReplaceDepositForBurn{From: from, OriginalMessage: orig, OriginalAttestation: att, NewDestinationCaller: newCaller, NewMintRecipient: mr}
+	case "attested-crafted-version":
+		// honestly attested, never emitted here, and carrying a non-zero header version: whatever is re-emitted has version 0
+		from := Acct(r.Intn(NAccounts))
+		ver := []uint32{1, 2, 0xffffffff, 0x01000000}[r.Intn(4)]
+		if r.Intn(2) == 0 {
+			in := &InMsg{Version: ver, Src: 4, Dst: Domains[r.Intn(len(Domains))], Nonce: uint64(r.Intn(50)), Sender: ref.Pad32(addrBytes(from)),
+				Recipient: Structured32(4), Caller: make([]byte, 32), Body: []byte("crafted version")}
+			raw := in.Bytes()
+			return &ct.MsgReplaceMessage{From: from, OriginalMessage: raw, OriginalAttestation: e.Attest(raw, 0), NewMessageBody: newBody, NewDestinationCaller: newCaller}
+		}
+		dst := p.dstWithMessenger()
+		body := BurnBody(0, ref.Keccak256([]byte(strings.ToLower(e.MintDenom()))), Structured32(5), big.NewInt(int64(1+r.Intn(1000))), ref.Pad32(addrBytes(from)))
+		in := &InMsg{Version: ver, Src: 4, Dst: dst, Nonce: uint64(r.Intn(50)), Sender: modulePadded, Recipient: e.M.Messengers[dst], Caller: make([]byte, 32), Body: body}
+		raw := in.Bytes()
+		return &ct.MsgReplaceDepositForBurn{From: from, OriginalMessage: raw, OriginalAttestation: e.Attest(raw, 0), NewDestinationCaller: Structured32(7), NewMintRecipient: Structured32(6)}
 	case "attested-unissued-nonce":
 		// an honestly attested message that this chain never emitted, carrying a nonce at / around the counter
 		from := Acct(r.Intn(NAccounts))
@@ -271,7 +286,7 @@ func (p *ProdGen) Replacement(cls string) sdk.Msg {
 
 var ReplacementClasses = []string{"attested-unissued-nonce", "own-message", "others-message", "unattested", "rotated-set", "user-132-as-deposit", "new-caller-shapes",
 	"own-deposit", "others-deposit", "deposit-via-replace-message", "deposit-unattested", "new-recipient-shapes", "foreign-domain", "forged-module-message",
-	"own-deposit-same-recipient", "own-deposit-unchanged", "own-message-unchanged"}
+	"own-deposit-same-recipient", "own-deposit-unchanged", "own-message-unchanged", "attested-crafted-version"}
 
 // FailingProducer returns a producer message that must fail for the named reason.
 func (p *ProdGen) FailingProducer(kind string) []sdk.Msg {
